@@ -26,6 +26,9 @@ package node
 //@   modifies hdr(*k)
 //@   ensures err == nil ==> 2 <= result0 && result0 <= len(data) && len(*k) == result0 - 2
 //@   ensures err != nil ==> result0 <= 1
+//@   ensures err == nil ==> result0 == 2 + int(data[0]) + 256*int(data[1])
+//@   ensures len(data) >= 2 && len(data) >= 2 + int(data[0]) + 256*int(data[1]) ==> err == nil
+//@   note complete: a key is rejected only if the buffer is shorter than its declared length
 
 //@ func Key.UnmarshalBinary
 //@   props C16
@@ -41,6 +44,8 @@ package node
 //@   requires n != nil
 //@   ensures err == nil ==> 7 <= result0 && result0 <= len(data)
 //@   ensures err != nil ==> result0 == 0
+//@   ensures len(data) >= 7 && data[0] == PrefixLeafNode && data[1] == 0 && data[2] == 0 && data[3] == 0 && data[4] == 0 && data[5] == 0 && data[6] == 0 ==> err == nil && result0 == 7
+//@   note (C04, completeness) the smallest leaf there is - the empty key with an empty value, 7 bytes, also when nothing follows it in the buffer, which is how proofs carry it - is decoded, not rejected: an honest proof of a tree holding that entry must verify (seed C04_k rejected a leaf that fills the buffer exactly to its minimum length)
 
 //@ func LeafNode.UnmarshalBinary
 //@   props C16 C04
@@ -136,6 +141,13 @@ package node
 //@   note a root follows another iff same type and namespace and the version is equal or the direct successor (the successor is computed in uint64 arithmetic, so version 0 'follows' version 2^64-1)
 
 // ---- key primitives (C03, C02): bit addressing stays inside the key; Depth is 16 bits ----
+
+//@ func Key.Equal
+//@   props C03 C16
+//@   modifies nothing
+//@   ensures len(k) == 0 && len(other) == 0 ==> result
+//@   ensures result ==> len(k) == len(other)
+//@   note (C03) the nil key and the empty key are the same key of the map - the empty byte string; the property names it explicitly -, in BOTH directions: the comparison that decides "this leaf holds the key" in lookup, insert and remove answers yes for them. FAILED on the pinned tree (nil receiver against an empty argument; the other direction held): finding F18, fixed
 
 //@ func Key.BitLength
 //@   props C03
